@@ -439,6 +439,7 @@ def main(argv):
     keep = False
     seeded = False
     benign = False
+    benign_seeded = False
     props = []
     it = iter(argv)
     for a in it:
@@ -452,8 +453,41 @@ def main(argv):
             seeded = True
         elif a == "--benign":
             benign = True
+        elif a == "--benign-seeded":
+            benign_seeded = True
         else:
             props.append(a)
+    if benign_seeded:
+        # behaviour-preserving refactors written by independent sub-agents (seeded_benign/<name>/patch.diff): EVERY check
+        # must stay silent on each of them
+        failed = []
+        sd = os.path.join(VERIF, "seeded_benign")
+        for name in sorted(os.listdir(sd)) if os.path.isdir(sd) else []:
+            patch = os.path.join(sd, name, "patch.diff")
+            if not os.path.exists(patch) or (only and only not in name):
+                continue
+            for prop in (props or ["C10", "C08", "C17", "C11", "C12"]):
+                base = scratch_copy()
+                quiet = True
+                try:
+                    p = subprocess.run(["git", "apply", "--unsafe-paths", "--directory", base, patch], capture_output=True, text=True, cwd="/")
+                    if p.returncode != 0:
+                        print(f"[benign-seeded] {name}: patch does not apply: {p.stderr[-300:]}")
+                        failed.append(name)
+                        break
+                    rc, out, dt = run_check(base, prop, runs=runs)
+                    quiet = rc == 0 and not any(l.startswith(("VIOLATION", "HARNESS-ERROR")) for l in out.splitlines())
+                    print(f"[benign-seeded] {'QUIET' if quiet else 'ALARM':6s} {prop} {name} ({dt:.0f}s)", flush=True)
+                    if not quiet:
+                        failed.append(f"{name}:{prop}")
+                        print("\n".join("       | " + l[:300] for l in out.splitlines() if not l.startswith("KNOWN-FINDING"))[-3000:])
+                finally:
+                    if keep and not quiet:
+                        print("kept", base)
+                    else:
+                        shutil.rmtree(base, ignore_errors=True)
+        print(f"[benign-seeded] false alarms: {failed}")
+        return 1 if failed else 0
     if benign:
         failed = []
         for name, prop, edits, what in BENIGN:
